@@ -127,7 +127,11 @@ def shape_key_of_term(t):
     return k
 
 
+MEMO_BY_LABELLER = set()     # (shape, handler): stored by the dispatcher
+
+
 def rule_ctl1(prog, labeller):
+    MEMO_BY_LABELLER.clear()
     r = RuleResult('R-CTL-1', 'dispatch closure of the CTL labeller '
                    '(every shape handled directly or rewritten once)')
     table = {}
@@ -156,6 +160,13 @@ def rule_ctl1(prog, labeller):
                               if pp.key == val and pp.val == v]
                     kinds.append(('rewrite', t, bool(stored)))
                 elif len(a) >= 2 and a[1] == val:
+                    # the labeller itself may keep the memo: the handler's
+                    # result is stored under the labeller's own formula
+                    stored = [pp for pp in p.heap[L.oid].parts
+                              if pp.simple() and _same_formula(pp.key, val)
+                              and pp.val == v]
+                    if stored:
+                        MEMO_BY_LABELLER.add((key, callee.qn))
                     kinds.append(('direct', callee))
                 else:
                     kinds.append(('other', repr(v)))
@@ -404,6 +415,11 @@ def rule_ctl3(prog, labeller, table, tier):
             _same_formula(entries[0].key, val) and \
             isinstance(entries[0].val, Obj) and \
             isinstance(term, Coll) and entries[0].val.oid == term.oid
+        if not keyok and not entries and kind[0] == 'direct' and \
+                (key, handler.qn) in MEMO_BY_LABELLER:
+            # the handler only computes; the dispatcher stores what it
+            # returns under the formula it was asked about
+            keyok = True
         # evaluate
         nm = 0
         counter = None
